@@ -477,6 +477,8 @@ pub fn run(tier: Tier) -> i32 {
     }
     // capacity: eight and nine concurrently announcing masters
     let (cap_evals, cap_v) = capacity();
+    rep.violations(cap_v);
+    rep.cover("capacity_cases", json!(cap_evals));
     // invariance of the canonical graph under the sequence-id translation, checked on the
     // real code: the explorations from counters 0 and 65533 must agree level by level
     let w = rep.coverage.get("worlds").cloned().unwrap_or(json!([]));
